@@ -512,11 +512,14 @@ func Family(prop, tier string) ([]Scenario, error) {
 				out = append(out, mk(n, false, [][]int{nil, nil}, v))
 			}
 		}
+		// the emitter kills the scheduler loop's goroutine before every job has run: nil would be a lie
+		out = append(out, emitGoexit(n12, false)...)
 		if th {
 			out = append(out, Core(4, n12, []bool{false}, okerr, 2)...)
 			out = append(out, Core(3, []int{3}, []bool{false}, okerr, -1)...)
 		}
 	case "C08":
+		out = append(out, emitGoexit(n12, true)...)
 		out = append(out, Core(1, n12, []bool{true}, okerr, -1)...)
 		out = append(out, Core(2, n12, []bool{true}, []string{OK, Err, Goexit}, -1)...)
 		out = append(out, Core(3, n12, []bool{true}, okerr, -1)...)
@@ -605,4 +608,21 @@ func Family(prop, tier string) ([]Scenario, error) {
 		out[i].Name = fmt.Sprintf("%s/%04d", prop, i)
 	}
 	return out, nil
+}
+
+// emitGoexit: all-ok graphs whose state emitter ends the scheduler loop's goroutine on its first report
+func emitGoexit(ns []int, coe bool) []Scenario {
+	var out []Scenario
+	for _, n := range ns {
+		for _, g := range [][][]int{{nil}, {nil, nil}, {nil, {0}}, {nil, nil, {0, 1}}} {
+			v := make([]string, len(g))
+			for i := range v {
+				v[i] = OK
+			}
+			e := withEmitter(mk(n, coe, g, v), 1)
+			e.EmitGoexit = true
+			out = append(out, e)
+		}
+	}
+	return out
 }
